@@ -37,6 +37,8 @@ def hostile_name(gopher_ok=True, min_size=1, max_size=8):
         st.sampled_from(list("éü€") + ["e\u0301", "\u2126", "\u212b", "\uf900", "\ufb01", "\uff21", "\u1e9b\u0323"]).map(
             lambda c: c.encode("utf-8").decode("latin-1")),
         _chars(pool),
+        # characters that some line-splitting and blank-stripping routines treat as line ends / blanks
+        st.sampled_from(["\x0b", "\x0c", "\x1c", "\x1d", "\x1e", "\x1f", "\xc2\x85", "\xe2\x80\xa8", "\xe2\x80\xa9", "\xc2\xa0"]),
     )
     return st.lists(ch, min_size=min_size, max_size=max_size).map("".join)
 
